@@ -12,7 +12,7 @@ import (
 // mode deny: the real deny.Store under a mock clock, store-level operations
 func init() {
 	register("deny", func(args []string) {
-		opTimeout = 2 * time.Second // store operations are instantaneous; one that does not return has dead-locked
+		opTimeout = 5 * time.Second // store operations are instantaneous; one that does not return has dead-locked
 		runLines(func() func(fs []string) string {
 			s := deny.New()
 			now := int64(0)
